@@ -427,6 +427,22 @@ def run(world, rep, tier, only=None):
                            "`%s` (line %d): %s has passed a comparison with 0 or 1: %s" % (T.pp(x)[:30], n.line, v["n"], [T.pp(a_)[:20] for a_ in tested][:2]))
     rep.floor("C10.m `v - 1` subscripts in link.c", n_m, 1)
 
+    # ------------------------------------------------------------------ C10.n an inode goes only if its name went
+    # debugfs rm / rmdir resolve the path with ext2fs_namei() (which follows links and accepts a trailing slash) and
+    # remove the name with a helper that resolves the directory part differently; the removal can fail.  The inode is
+    # released - and its link count lowered - only behind the outcome of that removal.
+    for nm in ("do_rm", "do_rmdir"):
+        f = dbg.fn(nm, "debugfs/debugfs.c")
+        kills = calls_to(f, "kill_file_by_inode")
+        rep.floor("C10.n release of the inode in %s" % nm, len(kills), 1)
+        for i, k in enumerate(kills):
+            behind = any(t is not None and (any(cc.get("fn") in ("unlink_file_by_name", "ext2fs_unlink") for cc in T.calls(a_)) or
+                                            depends_on(f, a_, lambda y: isinstance(y, dict) and y.get("k") == "c" and
+                                                       y.get("fn") in ("unlink_file_by_name", "ext2fs_unlink")))
+                         for t, a_ in control_lits(f, k))
+            rep.ob("C10.n", site(f, "inode released only when the name was removed#%d" % i), behind,
+                   "kill_file_by_inode() lies behind a test of the outcome of unlink_file_by_name()")
+
     # ------------------------------------------------------------------ C10.l a name that does not fit a directory entry is refused
     # name_len is one byte: ext2fs_link() must compare the length with EXT2_NAME_LEN before either the linear or the
     # htree insertion runs, or a 300-byte name is stored as the 44-byte name its length modulo 256 gives
